@@ -627,3 +627,125 @@ def gen_equal(a, b):
 
 def fingerprint(params):
     return float(sum(float(np.sum(np.asarray(x, dtype=np.float64))) for x in jax.tree_util.tree_leaves(params)))
+
+
+# ---------------------------------------------------------------------------
+# RAR programs (C16 / C17)
+
+
+def gen_rar_program(rng, r, tier, float_mode="x64"):
+    eq = rng.choice(["ode", "ode", "statio2", "nonstatio2", "sysode"])
+    prog = {"float": float_mode, "eq": eq}
+    prog["net"] = {"key": rng.randrange(2**31), "hidden": [rng.randint(3, 4)]}
+    prog["eq_params"] = {"a": round(rng.uniform(0.5, 1.5), 3), "b": round(rng.uniform(0.5, 1.5), 3)}
+    prog["form"] = 0
+    prog["terms"] = {"ic": rng.random() < 0.5, "bc": None, "norm": False}
+    prog["weights"] = {}
+    prog["dkeys"] = "default"
+    prog["opt"] = {"kind": rng.choice(["sgd", "adam"]), "lr": 1e-2}
+    prog["param_data"] = None
+    prog["obs_data"] = None
+    prog["tracked"] = None
+    prog["verbose"] = False
+    prog["faults"] = []
+    key = rng.randrange(2**31)
+
+    def sizes():
+        n = rng.randint(6, 24)
+        n_start = rng.randint(1, n - 1)
+        sel = rng.randint(1, 3)
+        samp = sel + rng.randint(0, 5)
+        b = rng.randint(1, max(1, min(n_start, 4)))
+        return n, n_start, sel, samp, b
+
+    rp = {"start_iter": rng.choice([0, 0, 1, 2, 3, 4, 5, 6, 30]), "update_every": rng.randint(1, 4)}
+    rar = {"params": rp}
+    if eq in ("ode", "sysode"):
+        nt, nt_start, sel, samp, bt = sizes()
+        rp.update(sample_size_times=samp, selected_sample_size_times=sel)
+        rar["nt_start"] = nt_start
+        prog["data"] = {"kind": "ode", "key": key, "nt": nt, "bt": bt, "tmin": 0.0, "tmax": float(rng.choice([1, 2])), "method": "uniform"}
+    elif eq == "statio2":
+        n, n_start, sel, samp, bo = sizes()
+        rp.update(sample_size_omega=samp, selected_sample_size_omega=sel)
+        rar["n_start"] = n_start
+        prog["data"] = {"kind": "statio", "key": key, "n": n, "bo": bo, "dim": 2, "method": "uniform",
+                        "min_pts": [-1.0, 0.0], "max_pts": [1.0, 2.0], "nb": None, "bb": None}
+    else:
+        n, n_start, sel, samp, bo = sizes()
+        if rng.random() < 0.4:
+            nt, nt_start, selt, sampt, bt = n, n_start, sel, samp, rng.randint(1, max(1, min(n_start, 3)))
+            if rng.random() < 0.5:
+                nt = n + rng.randint(0, 4)
+        else:
+            nt, nt_start, selt, sampt, bt = sizes()
+        bt = min(bt, 3)
+        bo = min(bo, 3)
+        rp.update(sample_size_omega=samp, selected_sample_size_omega=sel, sample_size_times=sampt, selected_sample_size_times=selt)
+        rar["n_start"], rar["nt_start"] = n_start, nt_start
+        prog["data"] = {"kind": "nonstatio", "key": key, "n": n, "bo": bo, "dim": 2, "method": "uniform",
+                        "min_pts": [-1.0, 0.0], "max_pts": [1.0, 2.0], "nb": None, "bb": None,
+                        "nt": nt, "bt": bt, "tmin": 0.0, "tmax": 1.0, "cartesian": True}
+    prog["rar"] = rar
+    # horizon: about 40% of the runs exhaust the capacity
+    caps = []
+    if "nt_start" in rar:
+        caps.append((prog["data"]["nt"] - rar["nt_start"]) // rp["selected_sample_size_times"])
+    if "n_start" in rar:
+        caps.append((prog["data"]["n"] - rar["n_start"]) // rp["selected_sample_size_omega"])
+    cap = min(caps)
+    need = rp["start_iter"] + cap * rp["update_every"] + 2
+    if rng.random() < 0.45 and need <= 26:
+        n_iter = need + rng.randint(0, 3)
+    else:
+        n_iter = rng.randint(4, 16)
+    prog["segments"] = [{"n": n_iter}]
+    prog["driver"] = "M2"
+    prog["also_M1"] = rng.random() < 0.3
+    return prog
+
+
+class RarTrace:
+    pass
+
+
+def _snap_data(d):
+    s = {"key": np.asarray(d.key).copy(), "rar_iter_nb": int(np.asarray(d.rar_iter_nb)),
+         "rar_iter_from_last_sampling": int(np.asarray(d.rar_iter_from_last_sampling))}
+    for f in ("times", "p_times", "omega", "p_omega"):
+        if hasattr(d, f) and getattr(d, f) is not None:
+            s[f] = np.asarray(getattr(d, f)).copy()
+    return s
+
+
+def run_rar(program, P=None):
+    """Run the RAR program under M2 (and optionally M1); returns per-iteration
+    snapshots of the generator, the parameters and the hook events."""
+    P = P or build(program)
+    n = program["segments"][0]["n"]
+    T = RarTrace()
+    T.P = P
+    if not getattr(_rar_mod, "_VERIF", False) or not hasattr(_rar_mod, "_VERIF_SINK"):
+        T.hook = False
+    else:
+        T.hook = True
+        _rar_mod._VERIF_SINK.clear()
+    snaps, params = [], []
+
+    def obs(c):
+        snaps.append(_snap_data(c[4].data))
+        params.append(c[2].params)
+
+    out, _ = call_solve(P, n, P.params, P.data, None, None, None, driver="M2", observer=obs)
+    jax.effects_barrier()
+    T.snaps, T.params, T.out = snaps, params, out
+    T.events = list(_rar_mod._VERIF_SINK) if T.hook else []
+    T.m1 = None
+    if program.get("also_M1"):
+        if T.hook:
+            _rar_mod._VERIF_SINK.clear()
+        out1, _ = call_solve(P, n, P.params, P.data, None, None, None, driver="M1")
+        jax.effects_barrier()
+        T.m1 = out1
+        T.events_m1 = list(_rar_mod._VERIF_SINK) if T.hook else []
+    return T
